@@ -2227,7 +2227,7 @@ fn delete_value_array_by_keypath<'a>(
 ) {
     if let Some(KeyPath::Index(idx)) = keypath.pop_front() {
         let len = arr.len() as i32;
-        let idx = if *idx < 0 { len - idx.abs() } else { *idx };
+        let idx = if *idx < 0 { len + *idx } else { *idx };
         if idx < 0 || idx >= len {
             return;
         }
@@ -2300,7 +2300,7 @@ fn delete_jsonb_array_by_keypath<'a, 'b>(
     let len = (header & CONTAINER_HEADER_LEN_MASK) as i32;
     match keypath.pop_front() {
         Some(KeyPath::Index(idx)) => {
-            let idx = if *idx < 0 { len - idx.abs() } else { *idx };
+            let idx = if *idx < 0 { len + *idx } else { *idx };
             if idx < 0 || idx >= len {
                 return Ok(None);
             }
@@ -2456,7 +2456,7 @@ pub fn delete_by_index(value: &[u8], index: i32, buf: &mut Vec<u8>) -> Result<()
         match &mut val {
             Value::Array(arr) => {
                 let len = arr.len() as i32;
-                let index = if index < 0 { len - index.abs() } else { index };
+                let index = if index < 0 { len + index } else { index };
                 if index >= 0 && index < len {
                     arr.remove(index as usize);
                 }
@@ -2475,7 +2475,7 @@ fn delete_jsonb_by_index(value: &[u8], index: i32, buf: &mut Vec<u8>) -> Result<
     match header & CONTAINER_HEADER_TYPE_MASK {
         ARRAY_CONTAINER_TAG => {
             let len = (header & CONTAINER_HEADER_LEN_MASK) as i32;
-            let index = if index < 0 { len - index.abs() } else { index };
+            let index = if index < 0 { len + index } else { index };
             if index < 0 || index >= len {
                 buf.extend_from_slice(value);
             } else {
@@ -2529,7 +2529,7 @@ fn array_insert_jsonb(
         1
     };
 
-    let idx = if pos < 0 { len - pos.abs() } else { pos };
+    let idx = if pos < 0 { len + pos } else { pos };
     let idx = if idx < 0 {
         0
     } else if idx > len {
